@@ -81,7 +81,7 @@ theorem no_leak {v : Vol} {count : Nat} {s : St} (h : Inv v count s) (c : Nat) (
 theorem inv_empty_fixed (v : Vol) (count : Nat) (fat : List Nat) (hint : Nat) (dfat : List Nat) (disk : List DEnt)
     (hfix : v.fixedRoot = true) (hlen : count + 2 ≤ fat.length)
     (hfree : ∀ c, 2 ≤ c → c < count + 2 → fat.getD c 0 = v.p.cv.free ∨ fat.getD c 0 = v.p.cv.bad)
-    (hroot : 32 * v.rootBase ≤ v.rootCap) :
+    (hroot : 32 * v.rootBase ≤ v.rootCap) (hh : Proofs.FsHint.HintOK v.p v.bound fat hint) :
     Inv v count ⟨fat, hint, [], [], dfat, disk⟩ := by
   have htree : TreeInv ([] : List Node) :=
     ⟨fun n hn => (nomatch hn), List.nodup_nil, fun d hd => (nomatch hd), fun d hd => (nomatch hd)⟩
@@ -91,9 +91,15 @@ theorem inv_empty_fixed (v : Vol) (count : Nat) (fat : List Nat) (hint : Nat) (d
     · intro cs hcs; simp [own, ne] at hcs
     · simp [own, ne]
     · intro c h2 hc _; exact hfree c h2 hc
-  refine ⟨htree, hrep, fun _ => rfl, (fun (hf : v.fixedRoot = false) => by rw [hfix] at hf; cases hf),
+  refine ⟨htree, hrep, hh, fun _ => rfl, (fun (hf : v.fixedRoot = false) => by rw [hfix] at hf; cases hf),
     (fun d hd => (nomatch hd)), fun _ => ?_, (fun d hd => (nomatch hd))⟩
   simp only [dirBytes, childSlots, hfix, Loc.id, List.filter_nil, List.map_nil, List.sum_nil, Nat.add_zero, ↓reduceIte]
   exact hroot
+
+/-- **no spurious out-of-space in any reachable state**: when an allocation of `n` clusters is refused, the whole
+    volume holds at most `n` allocatable clusters (the allocator needs one index behind the last cluster it takes) -/
+theorem enospc_means_full {v : Vol} {count : Nat} {s : St} (h : Inv v count s) (n : Nat)
+    (hno : allocate v.p s.fat s.hint v.bound n = none) : Proofs.Alloc.avail v.p s.fat v.bound 0 ≤ n :=
+  Proofs.FsHint.enospc_means_full h.hintOK hno
 
 end Proofs.FsRun
